@@ -65,8 +65,14 @@ def run(ctx):
                         "operands are a boundary-biased sample judged by Apalache",
                         "the decrease-side charge is three lines inside execute_decrease_position; the driver composes the same "
                         "three real calls (compute at the min price, clamp to the output, record)",
-                        "settlement (SettleBuilderFee::invoke) needs token accounts and a CPI: covered at specification level "
-                        "only in this round"]
+                        "settlement (SettleBuilderFee::invoke): specification level in this module; the real instruction is "
+                        "executed by the runtime binding props/c32rt.py when present"]
+    # instruction-level binding of the settlement (real settle_builder_fee / close_order_v2 in world R2)
+    try:
+        import props.c32rt as rt
+        rt.run_rt(ctx)
+    except ImportError:
+        pass
     ctx.cov["trusted_base"] += ["TLC", "Apalache/Z3", "h-programs c32 driver", "hooks ops/order.rs, states/order.rs ::verif"]
     return ctx.finish("model_checking",
                       "every operand tuple of the small domain for the four helpers, record and the decrease-side charge, "
